@@ -79,6 +79,10 @@ MUTATORS = {
     "C12": [
         ("drop cap (boundary)", r"quimb/tensor/(tn2d/core|tn3d/core|tnag/compress|tensor_core)\.py$", r"^(\s+)max_bond=max_bond,\s*$", None),
         ("drop cutoff (boundary)", r"quimb/tensor/(tn2d/core|tn3d/core|tnag/compress|tensor_core)\.py$", r"^(\s+)cutoff=cutoff,\s*$", None),
+        ("guard flipped", r"quimb/tensor/(tn2d|tn3d)/core\.py$", r"^(\s+)if bonds_size\(t1, tn\) > max_bond:\s*$", r"\1if bonds_size(t1, tn) < max_bond:"),
+        ("skip guard flipped", r"quimb/tensor/tn2d/core\.py$", r"^(\s+)<= max_bond\s*$", r"\1> max_bond"),
+        ("shortcut QR of the larger tensor", r"quimb/tensor/tensor_core\.py$", r"^(\s+)compress_absorb = \"right\" if lsize <= rsize else \"left\"\s*$", r'\1compress_absorb = "left" if lsize <= rsize else "right"'),
+        ("shortcut direction from option", r"quimb/tensor/tensor_core\.py$", r"^(\s+)compress_absorb = \"right\" if lsize <= rsize else \"left\"\s*$", r'\1compress_absorb = absorb if absorb != "both" else "right"'),
     ],
     "C13": [
         ("drop normalized", r"quimb/tensor/(tnag/core|tn1d/core|tn2d/core|tn3d/core)\.py$", r"^(\s+)normalized=normalized,\s*$", None),
